@@ -170,11 +170,100 @@ def build(repo=None):
     calls = [n for n in ast.walk(node) if isinstance(n, ast.Call) and ast.unparse(n.func) == "make_memmap"]
     if len(calls) != 1 or {k.arg: ast.unparse(k.value) for k in calls[0].keywords}.get("offset") != "offset":
         raise TranslateError("read_mmap: make_memmap is not called with offset=offset")
+    # ------------------------------------------------------------ _memmapping_reducer.py
+    rpath = os.path.join(repo, "joblib", "_memmapping_reducer.py")
+    node, _ = translate.find_function(rpath, "_reduce_memmap_backed")
+    body = node.body
+    texts = [ast.unparse(s) for s in body]
+    for need in ("a_start, a_end = byte_bounds(a)", "m_start = byte_bounds(m)[0]", "offset = a_start - m_start"):
+        if need not in texts:
+            raise TranslateError("_reduce_memmap_backed: statement %r not found" % need)
+    start = texts.index("offset = a_start - m_start")
+    rets = [i for i, st in enumerate(body) if isinstance(st, ast.Return)]
+    if len(rets) != 1 or rets[0] != len(body) - 1:
+        raise TranslateError("_reduce_memmap_backed: unexpected return structure")
+    want_ret = ("(_strided_from_memmap, (m.filename, a.dtype, m.mode, offset, order, a.shape, strides, "
+                "total_buffer_len, False))")
+    if ast.unparse(body[-1].value) != want_ret:
+        raise TranslateError("_reduce_memmap_backed: the returned tuple changed: " + ast.unparse(body[-1].value))
+    subst = {"m.offset": ("m_offset", "Z"), "m.flags['F_CONTIGUOUS']": ("m_f", "bool"),
+             "a.flags['F_CONTIGUOUS']": ("a_f", "bool"), "a.flags['C_CONTIGUOUS']": ("a_c", "bool"),
+             "'F'": ("(1)", "Z"), "'C'": ("(0)", "Z"),          # order: 1 = 'F', 0 = 'C'
+             "a.strides": ("(1)", "Z"),                          # strides: Some 1 = a.strides is sent, None = not sent
+             "a.itemsize": ("itemsize", "Z")}
+    tr = translate.Tr({"subst": subst})
+    env = {"a_start": ("a_start", "Z"), "a_end": ("a_end", "Z"), "m_start": ("m_start", "Z")}
+
+    def kret(e):
+        ts = [e[n][1] for n in ("offset", "order", "strides", "total_buffer_len")]
+        if ts != ["Z", "Z", "optZ", "optZ"]:
+            raise TranslateError("_reduce_memmap_backed: unexpected result types %s" % ts)
+        return "Ok (%s, %s, %s, %s)" % tuple(e[n][0] for n in ("offset", "order", "strides", "total_buffer_len"))
+    code = tr.block(body[start:-1], env, kret)
+    out.append(_definition("reduce_args", [("a_start", "Z"), ("a_end", "Z"), ("m_start", "Z"), ("m_offset", "Z"),
+                                           ("itemsize", "Z"), ("m_f", "bool"), ("a_f", "bool"), ("a_c", "bool")],
+                           "(Z * Z * option Z * option Z)", code.replace("\n", "\n  ")))
+    # _strided_from_memmap: how the arguments are used (pattern check only, nothing to compute)
+    node, _ = translate.find_function(rpath, "_strided_from_memmap")
+    calls = [n for n in ast.walk(node) if isinstance(n, ast.Call) and ast.unparse(n.func) == "make_memmap"]
+    kws = sorted(tuple(sorted((k.arg, ast.unparse(k.value)) for k in c.keywords if k.arg in ("shape", "offset", "order", "mode", "dtype")))
+                 for c in calls)
+    want = sorted([(("dtype", "dtype"), ("mode", "mode"), ("offset", "offset"), ("order", "order"), ("shape", "shape")),
+                   (("dtype", "dtype"), ("mode", "mode"), ("offset", "offset"), ("order", "order"), ("shape", "total_buffer_len"))])
+    if kws != want:
+        raise TranslateError("_strided_from_memmap: make_memmap is called differently: %r" % (kws,))
+    ifs = [n for n in node.body if isinstance(n, ast.If)]
+    if [ast.unparse(i.test) for i in ifs] != ["mode == 'w+'", "strides is None"]:
+        raise TranslateError("_strided_from_memmap: unexpected branch structure")
+    strided = [n for n in ast.walk(node) if isinstance(n, ast.Call) and ast.unparse(n.func) == "as_strided"]
+    if len(strided) != 1 or ast.unparse(strided[0]) != "as_strided(base, shape=shape, strides=strides)":
+        raise TranslateError("_strided_from_memmap: as_strided is called differently")
+    # ArrayMemmapForwardReducer.__call__: the auto-memmapping threshold test
+    node, _ = translate.find_function(rpath, "ArrayMemmapForwardReducer.__call__")
+    first = [n for n in node.body if isinstance(n, ast.If)]
+    if len(first) != 2 or ast.unparse(first[0].test) != "m is not None and isinstance(m, np.memmap)" \
+            or ast.unparse(first[0].body[-1]) != "return _reduce_memmap_backed(a, m)":
+        raise TranslateError("ArrayMemmapForwardReducer.__call__: unexpected structure")
+
+    class Ren(ast.NodeTransformer):
+        def visit_Attribute(self, n):
+            if ast.unparse(n) == "self._max_nbytes":
+                return ast.copy_location(ast.Name(id="max_nbytes", ctx=ast.Load()), n)
+            return self.generic_visit(n)
+    test = Ren().visit(first[1].test)
+    ast.fix_missing_locations(test)
+    tr = translate.Tr({"subst": {"a.dtype.hasobject": ("hasobject", "bool"), "a.nbytes": ("nbytes", "Z")}})
+    c, t, r = tr.truth(tr.expr(test, {"max_nbytes": ("max_nbytes", "optZ")}), test)
+    out.append(_definition("forward_memmaps", [("hasobject", "bool"), ("max_nbytes", "option Z"), ("nbytes", "Z")], "bool",
+                           c if r else "Ok (%s)" % c))
+    rets = [ast.unparse(n.value.elts[0]) for n in ast.walk(first[1]) if isinstance(n, ast.Return) and isinstance(n.value, ast.Tuple)]
+    if rets != ["load_temporary_memmap", "loads"]:
+        raise TranslateError("ArrayMemmapForwardReducer.__call__: unexpected returns %r" % rets)
+    # reduce_array_memmap_backward
+    node, _ = translate.find_function(rpath, "reduce_array_memmap_backward")
+    ifs = [n for n in node.body if isinstance(n, ast.If)]
+    if len(ifs) != 1 or ast.unparse(ifs[0].test) != "isinstance(m, np.memmap) and m.filename not in JOBLIB_MMAPS" \
+            or ast.unparse(ifs[0].body[-1]) != "return _reduce_memmap_backed(a, m)":
+        raise TranslateError("reduce_array_memmap_backward: unexpected structure")
     return HEADER + "".join(out)
+
+
+def numpy_facts():
+    """facts about the numpy the implementation side runs with (interpreter common.PYNP)"""
+    import subprocess
+    p = subprocess.run([common.PYNP, "-c", "import numpy as np; print(int(hasattr(np.ndarray, '__array_prepare__')), np.__version__)"],
+                       stdout=subprocess.PIPE, stderr=subprocess.PIPE, text=True, timeout=120)
+    if p.returncode != 0:
+        raise RuntimeError("cannot query numpy: " + p.stderr[-500:])
+    flag, ver = p.stdout.split()
+    return {"has_array_prepare": flag == "1", "version": ver}
 
 
 def generate(repo=None):
     text = build(repo)
+    nf = numpy_facts()
+    text += ("(* numpy %s used by the implementation side: hasattr(numpy.ndarray, '__array_prepare__') *)\n"
+             "Definition numpy_has_array_prepare : bool := %s.\n" % (nf["version"], "true" if nf["has_array_prepare"] else "false"))
     path = os.path.join(common.COQ, "Gen", "C19_Padding.v")
     changed = common.write_if_changed(path, text)
     return path, changed
